@@ -24,6 +24,17 @@ m = {
     "not_applicable": [{"property_id": p["id"], "reason": "check under construction in this session (model and proof planned in DESIGN.md section 5); not claimed yet"} for p in props if p["id"] not in PROPS],
     "notes": "see DESIGN.md; ./check.sh <id> quick|thorough; known_findings.json lists repaired defects (fixed: entries)",
 }
+def technique_of(c):
+    # the deciding method: machine-checked Lean 4 theorems over the model(s) named in the entry; the tie to the source is
+    # the differential correspondence check, plus source facts extracted on every run where the theorem file uses them
+    path = '/verif/lean/' + c["props_module"].replace('.', '/') + '.lean'
+    uses_extraction = 'Extracted.' in open(path).read()
+    t = "Lean 4 proof (kernel-checked theorems, no sorry / own axioms) over hand-written executable model(s): " + c["model"]
+    t += "; tie to the source checked on every run by differential execution of model and implementation (engines: " + "+".join(e["name"] for e in c["engines"]) + ")"
+    if uses_extraction:
+        t += " and by source facts regenerated from /repo by extract/extract.py and used in `decide` theorems (fails closed)"
+    return t
+
 for pid in sorted(PROPS):
     c = PROPS[pid]
     m["checks"].append({
@@ -35,7 +46,7 @@ for pid in sorted(PROPS):
         "engine": "+".join(e["name"] for e in c["engines"]),
         "level_claimed": {"category": "proof", "text": c["level_text"], "design_ref": f"DESIGN.md section 5, {pid}"},
         "level_note": c["level_note"],
-        "technique": c.get("technique", "Lean 4 proof over hand-written model + differential correspondence check"),
+        "technique": c.get("technique", technique_of(c)),
     })
 json.dump(m, open('/verif/MANIFEST.json', 'w'), indent=1)
 print("MANIFEST.json:", len(m["checks"]), "checks,", len(m["not_applicable"]), "not applicable")
